@@ -1,6 +1,7 @@
 SPECIFICATION Spec
 CONSTANTS
   W = 4
+  Anns = {"both"}
   Sizes = {0, 1, 2, 3, 5}
   MaxFaults = 0
   MaxInject = 1
